@@ -177,6 +177,26 @@ def _narrow_float(v):
     return v
 
 
+NARROW_TRACK = [None]      # a list while a harness wants to see lossy stores into float32/16 arrays (None = off)
+
+
+def _lossy_in_narrow(v):
+    """would storing v into a float32/16 array lose information?  (integers, +-inf and float32-representable concretes do not)"""
+    if isinstance(v, (SBool, bool, int, np.integer)):
+        return False
+    if isinstance(v, SInt):
+        return False
+    if isinstance(v, core.SLog):
+        return not (not isinstance(v.p, Sym) and v.p == 0)          # -inf is exact, any other log-domain number is not
+    if isinstance(v, SReal):
+        return True
+    if isinstance(v, float):
+        return v == v and v not in (float("inf"), float("-inf")) and float(np.float32(v)) != v
+    if isinstance(v, Fraction):
+        return float(np.float32(float(v))) != v
+    return False
+
+
 _PENDING_NG = []
 
 
@@ -404,6 +424,10 @@ class Arr:
             v = v[()]
         if self.dtype in INT_RANGE and self.dtype != "int64":
             v = _uf(lambda q: wrap_int(q, self.dtype), 1)(v) if isinstance(v, np.ndarray) else wrap_int(v, self.dtype)
+        if NARROW_TRACK[0] is not None and str(self.dtype) in NARROW_FLOATS:
+            for q in (v.flat if isinstance(v, np.ndarray) else [v]):
+                if _lossy_in_narrow(q):
+                    NARROW_TRACK[0].append((str(self.dtype), repr(q)[:60]))
         try:
             self.a[key] = v
         except ValueError as e:
